@@ -1,6 +1,6 @@
 (* IndexDb3Proofs.v — C11, part 4: insert_index (back-fill, duplicate error), and what the
    invariant means for index searches and for the index listing. *)
-From Agdb Require Import Bytes DbValue Graph DbModel Search Queries DbValueProofs DbFrameProofs
+From Agdb Require Import Bytes DbValue Graph DbModel Search Queries DbValueEqProofs DbFrameProofs
   KvProofs KvDbProofs KvSelectProofs IndexProofs IndexDbProofs IndexDb2Proofs QStepProofs.
 From Coq Require Import ZifyBool ZifyNat ZifyN.
 Open Scope Z_scope.
